@@ -80,6 +80,45 @@ pub fn c16(thorough: bool, stubs: &BTreeSet<String>) -> Vec<CellDef> {
     un!(v, stubs, t, P32E2, exp, exp2, exp10, ln, log2, log10, cbrt, sin, cos, tan, asin, acos, atan, exp_m1, ln_1p, sinh, cosh, tanh, asinh, acosh, atanh, sqrt, recip, to_degrees, to_radians, round, floor, ceil, trunc, fract, abs, signum, neg);
     bi!(v, stubs, t, P32E2, powf, hypot, atan2, log, rem, div_euclid, rem_euclid, copysign, min, max);
     extra!(v, stubs, t, P32E2);
+    // formatting: Debug of the posit types, Display of the quires (Display of the posits is part of C03)
+    {
+        use std::fmt::Write;
+        macro_rules! dbg_cell { ($P:ty) => {
+            for (sfx, sp) in unary::<$P>(t) {
+                v.push(CellDef::new("C16", format!("{}/total/Debug{}", <$P as Fx>::NAME, sfx), sp, |k| {
+                    let p = <$P as Fx>::fb(k as u32);
+                    call(guard(|| { let mut s = String::new(); write!(s, "{:?}", p).unwrap(); s.bytes().fold(s.len() as u128, |h, b| h.wrapping_mul(131) ^ b as u128) }))
+                }));
+            }
+        }; }
+        dbg_cell!(P8E0); dbg_cell!(P16E1); dbg_cell!(P32E2);
+        // quire states: 0, NaR, +-2^j, +-(2^j - 1) for every bit j of each quire
+        v.push(CellDef::new("C16", "Q8E0,Q16E1,Q32E2/total/Display", Space::func(4 * (32 + 128 + 512), "every quire: +-2^j and +-(2^j - 1) for every bit j (includes 0 and NaR)", |i| i as u128), |k| {
+            let i = k as u64;
+            let (variant, r) = (i & 3, i >> 2);
+            let fmt = |s: String| s.bytes().fold(s.len() as u128, |h, b| h.wrapping_mul(131) ^ b as u128);
+            call(guard(|| {
+                if r < 32 {
+                    let b = 1u32 << r;
+                    let x = match variant { 0 => b, 1 => b.wrapping_neg(), 2 => b.wrapping_sub(1), _ => b.wrapping_sub(1).wrapping_neg() };
+                    fmt(format!("{}", softposit::Q8E0::from_bits(x)))
+                } else if r < 160 {
+                    let b = 1u128 << (r - 32);
+                    let x = match variant { 0 => b, 1 => b.wrapping_neg(), 2 => b.wrapping_sub(1), _ => b.wrapping_sub(1).wrapping_neg() };
+                    fmt(format!("{}", softposit::Q16E1::from_bits(x)))
+                } else {
+                    let j = (r - 160) as usize;
+                    // big-endian limbs
+                    let mut l = [0u64; 8];
+                    l[7 - j / 64] = 1u64 << (j % 64);
+                    let sub1 = |mut l: [u64; 8]| { for t in (0..8).rev() { let (v, br) = l[t].overflowing_sub(1); l[t] = v; if !br { break; } } l };
+                    let neg = |l: [u64; 8]| { let mut c = true; let mut o = [0u64; 8]; for t in (0..8).rev() { let (v, c2) = (!l[t]).overflowing_add(c as u64); o[t] = v; c = c2; } o };
+                    let x = match variant { 0 => l, 1 => neg(l), 2 => sub1(l), _ => neg(sub1(l)) };
+                    fmt(format!("{}", softposit::Q32E2::from_bits(x)))
+                }
+            }))
+        }));
+    }
     // entry points that are generic over the *source type*: a foreign ToPrimitive implementation may answer None to any
     // of its conversions (num-complex, big integers out of range do); every combination of answers must come back as a
     // value or None, never as an unwind
